@@ -509,6 +509,17 @@ func (fr *frame) doSelect(instr *ssa.Select) value {
 			break
 		}
 	}
+	if chosen < 0 {
+		// nothing is ready: time passes until a pending timer (time.After) fires
+		for i, st := range instr.States {
+			if ch, _ := fr.get(st.Chan).(*chanV); ch != nil && ch.timer && st.Dir == types.RecvOnly {
+				chosen = i
+				recv = zero(st.Chan.Type().Underlying().(*types.Chan).Elem())
+				recvOk = true
+				break
+			}
+		}
+	}
 	if chosen < 0 && instr.Blocking {
 		panic(engineError{"select would block (no ready case; engine has no scheduler)"})
 	}
